@@ -823,3 +823,20 @@ pub mod verif_hooks {
     (copy.doc, trace)
   }
 }
+
+#[cfg(feature = "verif-hooks")]
+pub mod verif_hooks_injection {
+  //! The acceptance test `Root::get_injections` relies on: `Parser::set_included_ranges`.
+
+  /// `parser.set_included_ranges(ranges).is_ok()` on a fresh parser, ranges given as byte offsets
+  /// (the test only reads the offsets); `None` = no parser
+  pub fn ranges_accepted(ranges: &[(u32, u32)]) -> Option<bool> {
+    let mut parser = tree_sitter::Parser::new().ok()?;
+    let origin = tree_sitter::Point::new(0, 0);
+    let ranges: Vec<tree_sitter::Range> = ranges
+      .iter()
+      .map(|(s, e)| tree_sitter::Range::new(*s, *e, &origin, &origin))
+      .collect();
+    Some(parser.set_included_ranges(&ranges).is_ok())
+  }
+}
